@@ -13,6 +13,17 @@ CONN_NOTE = (NOTE_COMMON + " Connection model: packets are seen through a view (
              "state digest, events and return values on every sampled history (C05's projection); each property compares its own projection.")
 
 CHECKS = {
+ "C11": dict(
+  text="Coq theorems, Closed under the global context, for EVERY state, role, version and well-formed packet view of the connection model: "
+       "(gate_sound) if the MQTT rule table (role x version x connection state; written independently in Spec/MqttRules.v) forbids the packet, "
+       "nothing is passed to the transport; (refused_is_noop) outside the stated store exception the result is only error events plus the "
+       "release of the packet's id and the state EQUALS the previous state up to that release; plus a Coq obligation, regenerated from the "
+       "compiled crate on every run, that the compile-time Sendable table (87 cells, rustc trait resolution) equals the same rule table. Tie: "
+       "the exhaustive 3248-cell matrix (all reachable role x version x status x 29 kinds x persistent/offline cells) and random histories, "
+       "judged by the projection correspondence and by a monitor that uses only the rule table.",
+  ref="DESIGN.md §3 C11",
+  note=CONN_NOTE + " checked_send is compared through its type table only (it dispatches to the same process_send_* functions).",
+  technique="Coq all-states proof against an independent rule table + Coq obligation over a table regenerated from rustc + exhaustive matrix correspondence"),
  "C19": dict(
   text="Coq theorems, Closed under the global context, for EVERY state (reachable or not), configuration and API call of the connection model "
        "and hence every event list of every history of any length: no send request follows a close request; every DISCONNECT and every failing "
